@@ -35,7 +35,7 @@ pub fn print_states(tier: Tier) {
     println!("total states={} transitions={}", e.states.len(), e.transitions);
 }
 
-fn classes(v: &BTreeSet<Viol>) -> Vec<String> {
+pub(crate) fn classes(v: &BTreeSet<Viol>) -> Vec<String> {
     let mut c: Vec<String> = v.iter().map(|x| x.class.clone()).collect();
     c.sort();
     c.dedup();
@@ -68,31 +68,31 @@ pub fn norm_panic(p: &str) -> String {
     format!("{m} @{file}")
 }
 
-fn state_detail(s: &State, text: &str) -> serde_json::Value {
+pub(crate) fn state_detail(s: &State, text: &str) -> serde_json::Value {
     json!({"family": s.family, "depth": s.depth, "source": text, "ir": s.desc})
 }
 
-struct Counters {
-    map: BTreeMap<String, usize>,
+pub(crate) struct Counters {
+    pub(crate) map: BTreeMap<String, usize>,
 }
 impl Counters {
-    fn new() -> Counters {
+    pub(crate) fn new() -> Counters {
         Counters { map: BTreeMap::new() }
     }
-    fn inc(&mut self, k: &str) {
+    pub(crate) fn inc(&mut self, k: &str) {
         *self.map.entry(k.to_string()).or_default() += 1;
     }
-    fn add(&mut self, k: &str, n: usize) {
+    pub(crate) fn add(&mut self, k: &str, n: usize) {
         *self.map.entry(k.to_string()).or_default() += n;
     }
-    fn merge(&mut self, o: Counters) {
+    pub(crate) fn merge(&mut self, o: Counters) {
         for (k, v) in o.map {
             *self.map.entry(k).or_default() += v;
         }
     }
 }
 
-fn fill_graph_evidence(ev: &mut Evidence, e: &graph::Explored) {
+pub(crate) fn fill_graph_evidence(ev: &mut Evidence, e: &graph::Explored) {
     ev.set("states", json!(e.states.len()));
     ev.set("transitions", json!(e.transitions));
     ev.set(
@@ -106,7 +106,7 @@ fn fill_graph_evidence(ev: &mut Evidence, e: &graph::Explored) {
     ev.set("exhaustive", json!(true));
 }
 
-fn finish(mut ev: Evidence, rep: Reporter, counters: Counters, samples: Vec<serde_json::Value>) -> i32 {
+pub(crate) fn finish(mut ev: Evidence, rep: Reporter, counters: Counters, samples: Vec<serde_json::Value>) -> i32 {
     ev.set("outcomes", json!(counters.map));
     ev.set("samples", json!(samples));
     let code = rep.finish(&mut ev);
@@ -904,28 +904,3 @@ pub fn encodable(d: &Desc, id: &str) -> bool {
     ok_type(d, id, 0)
 }
 
-// =============================================================================== C10 / C12 (see front2.rs)
-
-pub fn check_c10(tier: Tier) -> i32 {
-    crate::front::c10::run(tier)
-}
-
-pub fn check_c12(tier: Tier) -> i32 {
-    crate::front::c12::run(tier)
-}
-
-pub mod c10 {
-    use super::*;
-    pub fn run(_tier: Tier) -> i32 {
-        eprintln!("C10 not built yet");
-        2
-    }
-}
-
-pub mod c12 {
-    use super::*;
-    pub fn run(_tier: Tier) -> i32 {
-        eprintln!("C12 not built yet");
-        2
-    }
-}
